@@ -356,7 +356,7 @@ func applyDamage(img []byte, lay *layout, s Shape, d Damage, rng *rand.Rand) ([]
 	return img, -1, ""
 }
 
-func concretise(lay *layout, c Case, rng *rand.Rand) []byte {
+func concretise(lay *layout, c Case, rng *rand.Rand, variant int) []byte {
 	if c.Raw > 0 {
 		n := []int{0, 3, 64, 80, 100, 1000, 5000}[rng.Intn(7)]
 		g := make([]byte, n)
@@ -376,21 +376,114 @@ func concretise(lay *layout, c Case, rng *rand.Rand) []byte {
 		return g
 	}
 	img := append([]byte{}, lay.bytes...)
-	cut := -1
-	tail := ""
-	for _, d := range c.DS {
-		var t int
-		var tl string
-		img, t, tl = applyDamage(img, lay, c.S, d, rng)
-		if t >= 0 {
-			cut = t
+	// work on a copy of the layout: a reforged block changes the offsets behind it
+	l2 := &layout{bytes: lay.bytes, nameOff: lay.nameOff, nameLen: lay.nameLen, counts: lay.counts,
+		blockOff: append([]int{}, lay.blockOff...), blockEnd: append([]int{}, lay.blockEnd...)}
+	isCut := func(w string) bool { return strings.HasPrefix(w, "cut") }
+	// field damages first, from the back of the file to the front, so that offsets in front stay valid
+	ds := append([]Damage{}, c.DS...)
+	sort.SliceStable(ds, func(i, j int) bool {
+		if ds[i].B != ds[j].B {
+			return ds[i].B > ds[j].B
 		}
+		return ds[i].W == "reforge" && ds[j].W != "reforge" // rebuild the block first, damage its new bytes afterwards
+	})
+	tail := ""
+	for _, d := range ds {
+		if isCut(d.W) {
+			continue
+		}
+		if d.W == "reforge" {
+			var delta int
+			img, delta = reforge(img, l2, d, rng, variant)
+			l2.blockEnd[d.B-1] += delta
+			for j := d.B; j < len(l2.blockOff); j++ {
+				l2.blockOff[j] += delta
+				l2.blockEnd[j] += delta
+			}
+			continue
+		}
+		var tl string
+		img, _, tl = applyDamage(img, l2, c.S, d, rng)
 		tail += tl
 	}
-	if cut >= 0 && cut <= len(img) {
-		img = img[:cut]
+	// then the cut, placed in the layout as it is now
+	for _, d := range ds {
+		if !isCut(d.W) {
+			continue
+		}
+		_, cut, _ := applyDamage(img, l2, c.S, d, rng)
+		if cut >= 0 && cut <= len(img) {
+			img = img[:cut]
+		}
 	}
 	return append(img, tail...)
+}
+
+// reforge rebuilds block d.B consistently (sizes and checksum recomputed) around a malformed entry stream
+func reforge(img []byte, lay *layout, d Damage, rng *rand.Rand, variant int) ([]byte, int) {
+	bo, be := lay.blockOff[d.B-1], lay.blockEnd[d.B-1]
+	bh := &v2.BlockHeader{}
+	if err := bh.Deserialize(img[bo : bo+v2.BlockHeaderSize]); err != nil {
+		panic(err)
+	}
+	stream, err := v2.DecompressBlock(img[bo+v2.BlockHeaderSize : be])
+	if err != nil {
+		panic(err)
+	}
+	// where the records and their fields begin
+	type rec struct{ start, keyLen, dataLen int }
+	var recs []rec
+	for off := 0; off < len(stream); {
+		e := &v2.Entry{}
+		n, err := e.Deserialize(stream[off:])
+		if err != nil {
+			panic(err)
+		}
+		recs = append(recs, rec{off, len(e.Key), len(e.Data)})
+		off += n
+	}
+	if d.V == "biglen" {
+		r := recs[rng.Intn(len(recs))]
+		room := len(stream) - r.start
+		if rng.Intn(2) == 0 || r.keyLen+7 > 65000 {
+			binary.LittleEndian.PutUint32(stream[r.start+3+r.keyLen:], uint32(room+rng.Intn(1<<20)))
+		} else {
+			kl := room + rng.Intn(1000)
+			if kl > 65535 {
+				kl = 65535
+			}
+			if kl <= r.keyLen {
+				kl = r.keyLen + 1 + room
+			}
+			binary.LittleEndian.PutUint16(stream[r.start+1:], uint16(min(kl, 65535)))
+		}
+	} else {
+		// cut positions: every field boundary of every record (the last record first), then random ones
+		var cuts []int
+		for i := len(recs) - 1; i >= 0; i-- {
+			r := recs[i]
+			k := r.start + 3 + r.keyLen
+			for _, p := range []int{k, k + 1, k + 2, k + 3, k + 4, r.start, r.start + 1, r.start + 2, r.start + 3, r.start + 3 + r.keyLen/2, k + 4 + r.dataLen/2, k + 4 + r.dataLen - 1} {
+				if p >= 1 && p < len(stream) {
+					cuts = append(cuts, p)
+				}
+			}
+		}
+		p := 1 + rng.Intn(len(stream)-1)
+		if variant < len(cuts) {
+			p = cuts[variant]
+		}
+		stream = stream[:p]
+	}
+	comp := v2.CompressBlock(stream)
+	nh := &v2.BlockHeader{CompressedSize: uint32(len(comp)), UncompressedSize: uint32(len(stream)), EntryCount: bh.EntryCount,
+		Checksum: v2.CalculateChecksum(comp), Flags: bh.Flags}
+	out := append([]byte{}, img[:bo]...)
+	out = append(out, nh.Serialize()...)
+	out = append(out, comp...)
+	out = append(out, img[be:]...)
+	return out, len(out) - len(img)
 }
 
 // ---------------------------------------------------------------------------------------------
@@ -416,6 +509,9 @@ type obs struct {
 }
 
 func measured(name string, f func() (string, error)) (o apiObs) {
+	if isolate.ExitAfterCase {
+		return // (a huge allocation was already observed on this file)
+	}
 	o.API = name
 	var m0, m1 runtime.MemStats
 	runtime.ReadMemStats(&m0)
@@ -437,6 +533,12 @@ func measured(name string, f func() (string, error)) (o apiObs) {
 	}()
 	runtime.ReadMemStats(&m1)
 	o.Alloc = m1.TotalAlloc - m0.TotalAlloc
+	if o.Alloc > 64<<20 {
+		// Re-using a huge freed block for the next forged size makes the runtime zero it again (seconds per GiB), so
+		// the rest of this case's calls are skipped (they would parse the same forged size) and this child ends after
+		// the case; the next case runs in a fresh process whose first huge block comes zeroed from the OS.
+		isolate.ExitAfterCase = true
+	}
 	if len(o.Detail) > 120 {
 		o.Detail = o.Detail[:120]
 	}
@@ -480,6 +582,9 @@ func observe(dir string, img []byte, lay *layout, intact []byte) obs {
 	var loaded map[string][]byte
 	loadErr := true
 	add := func(o apiObs) {
+		if o.API == "" {
+			return
+		}
 		res.APIs = append(res.APIs, o)
 		if o.Alloc > res.MaxAlloc {
 			res.MaxAlloc, res.MaxAPI = o.Alloc, o.API
@@ -614,8 +719,14 @@ func main() {
 		cs, list := load(os.Args[6])
 		dir := filepath.Join(os.Getenv("VERIF_WORK"), fmt.Sprintf("corrupt-files-%d", stripe))
 		os.MkdirAll(dir, 0o755)
-		isolate.Worker(from, stripe, stripes, len(list), os.Args[3], func(i int) any {
+		isolate.Worker(from, stripe, stripes, len(list), os.Args[3], func(i int) (out any) {
 			c := cs[list[i].c]
+			defer func() {
+				// (the code under test runs under its own recover inside observe: a panic arriving here is the driver's)
+				if r := recover(); r != nil {
+					out = map[string]any{"case": c.ID, "variant": list[i].v, "infra": fmt.Sprint(r)}
+				}
+			}()
 			rng := rand.New(rand.NewSource(seed*1000003 + int64(c.ID)*131 + int64(list[i].v)))
 			var lay *layout
 			var intact []byte
@@ -623,7 +734,7 @@ func main() {
 				lay = buildFile(dir, c.S, rng)
 				intact = lay.bytes
 			}
-			img := concretise(lay, c, rng)
+			img := concretise(lay, c, rng, list[i].v)
 			o := observe(dir, img, lay, intact)
 			return map[string]any{"case": c.ID, "variant": list[i].v, "obs": o}
 		})
@@ -634,7 +745,7 @@ func main() {
 		os.Exit(3)
 	}
 	cs, list := load(os.Args[2])
-	res, deaths := isolate.Parent(os.Args[0], len(list), 4, os.Args[3]+".progress", []string{os.Args[2]}, 5*time.Minute)
+	res, deaths := isolate.Parent(os.Args[0], len(list), 4, os.Args[3]+".progress", []string{os.Args[2]}, 2*time.Minute)
 	f, err := os.Create(os.Args[3])
 	if err != nil {
 		panic(err)
@@ -653,6 +764,10 @@ func main() {
 		} else {
 			if err := json.Unmarshal(r.Raw, &line); err != nil {
 				panic(fmt.Sprintf("case %d: no result (%v)", i, err))
+			}
+			if inf, ok := line["infra"]; ok {
+				fmt.Fprintf(os.Stderr, "driver failure on case %v variant %v: %v\n", line["case"], line["variant"], inf)
+				os.Exit(6)
 			}
 			classes[line["obs"].(map[string]any)["class"].(string)]++
 		}
